@@ -27,7 +27,8 @@ theorem plainLabelsB_sound (d : Dfa) (h : plainLabelsB d = true) : d.PlainLabels
   have := h e he
   split at this
   · rename_i s heq
-    refine ⟨s, ?_, by rw [heq]; rfl⟩
+    rw [heq]
+    apply Expr.plainish_ofStr
     intro hs; subst hs; simp at this
   · simp at this
 
